@@ -19,6 +19,7 @@ META = {
     "assumptions": ["conventions as documented: spatial twists (omega, v) applied on the left, wrenches (moment, force) about the space origin",
                     "weights in carryMassCalc act at the top-plate origin and at shaft_grav_center from the top joint along each leg"],
 }
+REQUIRED_CLASSES = ["cond<1e2", "cond_1e2..1e3", "cond_1e3..1e4"]
 REQUIRED_CLAUSES = ["jacobian.derivative", "jacobian.explicit_elsewhere", "statics.equilibrium", "statics.inverse", "statics.sum_actuator", "statics.body", "statics.body_inverse",
                     "carry_mass"]
 
@@ -31,10 +32,19 @@ def plan(tier, seed):
 
 def gen_case(rng):
     g = splib.gen_geometry(rng)
+    far = rng.random() < 0.3
+
+    def far_pos():
+        # "any base placement": moments are taken about the world origin, so distance is what drives the condition number up to the 1e4 bound
+        d = rng.normal(size=3)
+        return (d / np.linalg.norm(d) * 10 ** rng.uniform(0.5, 2.3)).tolist()
+    if far and rng.random() < 0.6:
+        g["base"] = far_pos() + gen.rotvec(rng, ["zero", "generic2", "generic"]).tolist()
+        far = False
     model = splib.SPModel(g)
     steps = []
-    if rng.random() < 0.3:
-        steps.append({"op": "move", "base": np.concatenate([rng.uniform(-3, 3, 3), gen.rotvec(rng, ["zero", "generic2", "generic"])]).tolist()})
+    if far or rng.random() < 0.3:
+        steps.append({"op": "move", "base": (far_pos() if far else rng.uniform(-3, 3, 3).tolist()) + gen.rotvec(rng, ["zero", "generic2", "generic"]).tolist()})
     if rng.random() < 0.3:
         steps.insert(0, {"op": "spin", "rot": float(rng.uniform(-PI, PI))})
     return {"g": g, "steps": steps, "rel": splib.gen_rel_pose(rng, model.h).tolist(), "V": (rng.normal(size=6) * [1, 1, 1, 0.5, 0.5, 0.5]).tolist(),
@@ -86,7 +96,13 @@ def run_case(case, ctx, bm):
         ctx.cls("skipped_ill_conditioned")
         return
     ctx.cls("evaluated")
+    ctx.cls("cond<1e2" if cond < 1e2 else "cond_1e2..1e3" if cond < 1e3 else "cond_1e3..1e4")
     V = np.array(case["V"], dtype=float)
+    if float(np.linalg.norm(X[:3, 3])) > 5.0:
+        # far from the world origin a unit spatial twist sweeps the plate through |p| * h: outside the workspace and outside the
+        # range where a central difference resolves 1e-6.  Same set of twists, parametrised at the plate: V = Ad(X) V_plate.
+        V = se3.Ad(X) @ V
+        ctx.cls("twist_parametrised_at_plate")
     h = case["h"]
     B = model.B
 
